@@ -393,7 +393,8 @@ def _builds(ctx):
     refs = dict(default="nosimplify", customll="default", both="nosimplify")
     for k, err in errs.items():
         ref = refs.get(k)
-        tail = [l for l in err.split("\n") if l.strip()][-12:]
+        lines = [l for l in err.split("\n") if l.strip()]
+        tail = ([l for l in lines if "ERROR" in l or "rror:" in l or "called from" in l or "did not finish" in l][-6:] + lines[-4:])[-12:]
         step = next((l for l in reversed(tail) if "chibi-scheme" in l and ("tools/" in l or "-q" in l)), tail[-1] if tail else "")
         d = os.path.join(B.SCRATCH, "%s-%s" % (names[k], B.source_hash()))
         if ref and ref in dirs:
@@ -404,6 +405,9 @@ def _builds(ctx):
                           why="turning the variant on changes the behaviour of a program that runs correctly without it")
         else:
             ctx.broken("build:" + names[k], err[-1500:])
+        # the core binary of a variant whose library build failed can usually still run small programs
+        if os.path.exists(os.path.join(d, "chibi-scheme")) and os.path.exists(os.path.join(d, "lib", "chibi", "ast.so")):
+            errs[k] = d
     return dirs, errs
 
 
@@ -436,8 +440,12 @@ def run(ctx):
     _luint_part(ctx, d_custom, exe, sigs)
     if "default" in dirs and "customll" in dirs:
         _arith_outer(ctx, dirs["default"], dirs["customll"])
-    if "default" in dirs:
-        _simplify_part(ctx, exe, dirs)
+    partial = {k: d for k, d in errs.items() if os.path.isdir(str(d))}
+    if "default" in dirs or "default" in partial:
+        alld = dict(partial); alld.update(dirs)
+        if partial:
+            ctx.note("variants whose library build failed but whose core binary is used for the program runs: %s" % sorted(partial))
+        _simplify_part(ctx, exe, alld)
 
 
 # ------------------------------------------------------------------------------------------------ (B) simplify
